@@ -21,6 +21,11 @@ PAY = {"p0": b"", "p1": b"\xff", "p7": b"abcdefg", "p8": b"abcdefgh",
        "pu1": struct.pack("!HHHH", 1000, 2000, 3008, 0xbeef) + bytes(range(48, 64)),
        "pt1": struct.pack("!HHIIBBHHH", 1000, 2000, 0x01020304, 0x05060708, 0x50, 0x10, 1000, 0xabcd, 0)
               + bytes(range(65, 77))}
+IPOPT = {"-": b"", "ra": bytes([148, 4, 0, 0]), "nop": bytes([1, 1, 1, 1, 148, 4, 0, 0]),
+         "ts": bytes([68, 12, 13, 0, 1, 2, 3, 4, 5, 6, 7, 8]),
+         "rr": bytes([7, 39, 4]) + bytes(200 + (i % 50) for i in range(1, 37)) + b"\0"}
+TCPOPT = {"-": b"", "mss": bytes([2, 4, 5, 180]), "eol": bytes([2, 4, 5, 180, 1, 0, 0, 0]),
+          "big": bytes([2, 4, 5, 180, 4, 2, 8, 10, 0, 1, 2, 3, 255, 254, 253, 252, 1, 3, 3, 7])}
 PROTO = {"tcp": 6, "udp": 17, "icmp": 1, "x": 253}
 BITS = {"PORT_DOWN": 1, "NO_STP": 2, "NO_RECV": 4, "NO_RECV_STP": 8, "NO_FLOOD": 16,
         "NO_FWD": 32, "NO_PACKET_IN": 64}
@@ -33,8 +38,9 @@ def _l4(f):
     return pl
   src, dst = rb.ip(IPB[f["nsrc"]]), rb.ip(IPB[f["ndst"]])
   if f["proto"] == "tcp":
-    t = struct.pack("!HHIIBBHHH", f["tsrc"], f["tdst"], 0x01020304, 0x05060708, 0x50, 0x18,
-                    1000, 0, 0) + pl
+    op = TCPOPT[f["topt"]]
+    t = struct.pack("!HHIIBBHHH", f["tsrc"], f["tdst"], 0x01020304, 0x05060708, (5 + len(op) // 4) << 4, 0x18,
+                    1000, 0, 0) + op + pl
     c = rb.csum(src + dst + struct.pack("!BBH", 0, 6, len(t)) + t)
     return t[:16] + struct.pack("!H", c) + t[18:]
   if f["proto"] == "udp":
@@ -55,8 +61,9 @@ def enc(f):
   if f["et"] == "ip":
     l4 = _l4(f)
     fragw = {0: 0x4000, 1: 0x2000, 2: 185}[f["frag"]]
-    h = struct.pack("!BBHHHBBH4s4s", 0x45, f["tos"], 20 + len(l4), 0x1234, fragw, 64,
-                    PROTO[f["proto"]], 0, rb.ip(IPB[f["nsrc"]]), rb.ip(IPB[f["ndst"]]))
+    op = IPOPT[f["iopt"]]
+    h = struct.pack("!BBHHHBBH4s4s", 0x40 | (5 + len(op) // 4), f["tos"], 20 + len(op) + len(l4), 0x1234, fragw, 64,
+                    PROTO[f["proto"]], 0, rb.ip(IPB[f["nsrc"]]), rb.ip(IPB[f["ndst"]])) + op
     h = h[:10] + struct.pack("!H", rb.csum(h)) + h[12:]
     out += struct.pack("!H", 0x0800) + h + l4
   elif f["et"] == "arp":
@@ -119,10 +126,12 @@ def describe(b):
   d["et"] = "%04x" % et
   l3 = b[off + 2:]
   if et == 0x0800 and len(l3) >= 20:
+    hl = max(20, (l3[0] & 15) * 4)
     d["ip"] = dict(tos=l3[1], totlen=struct.unpack_from("!H", l3, 2)[0], proto=l3[9],
-                   src=l3[12:16].hex(), dst=l3[16:20].hex(), csum_ok=rb.csum(l3[:20]) == 0,
-                   len_ok=struct.unpack_from("!H", l3, 2)[0] == len(l3))
-    l4 = l3[20:]
+                   src=l3[12:16].hex(), dst=l3[16:20].hex(), csum_ok=rb.csum(l3[:hl]) == 0,
+                   len_ok=struct.unpack_from("!H", l3, 2)[0] == len(l3), ihl=l3[0] & 15,
+                   options=l3[20:hl].hex())
+    l4 = l3[hl:]
     if l3[9] in (6, 17) and len(l4) >= 8:
       d["tp"] = list(struct.unpack_from("!HH", l4, 0))
       ph = l3[12:20] + struct.pack("!BBH", 0, l3[9], len(l4))
